@@ -3,7 +3,7 @@ use std::io;
 use crate::entity::{serialize_attribute, serialize_cdata, serialize_text};
 use crate::error::Error;
 use crate::id::NameId;
-use crate::output::Normalizer;
+use crate::output::{NoopNormalizer, Normalizer};
 use crate::xotdata::{Node, Xot};
 
 use super::fullname::FullnameSerializer;
@@ -142,9 +142,12 @@ impl<'a, N: Normalizer> XmlSerializer<'a, N> {
                         text: "".to_string(),
                     });
                 }
+                // a namespace name is escaped but never normalized: it
+                // is compared as a string, so a normalized namespace name
+                // would give the names that use it another meaning
                 let namespace = serialize_attribute(
                     self.xot.namespace_str(*namespace_id).into(),
-                    &self.normalizer,
+                    &NoopNormalizer,
                 );
                 if *prefix_id == self.xot.empty_prefix_id {
                     OutputToken {
